@@ -1,9 +1,10 @@
 """C17 — session behaviour is a function of its inputs, not of hash order."""
 from . import families as F
 from .simprops import generic_run, sizes, sim_replay
+from .p_session import run_session_correspondence
 LABELS = {"C17", "PANIC"}
 def run(ctx):
-    generic_run(ctx, LABELS, [("repeat", lambda: F.fam_c01(ctx.rng, sizes(ctx, 300, 3000), tag="c17", expect=("nodisconnect", "repeat"))),
+    generic_run(ctx, LABELS, extra=run_session_correspondence, plan=[("repeat", lambda: F.fam_c01(ctx.rng, sizes(ctx, 300, 3000), tag="c17", expect=("nodisconnect", "repeat"))),
                               ("repeat_double_death", lambda: F.fam_double_death(ctx.rng, sizes(ctx, 60, 600), tag="c17dd", expect=("repeat",))),
                               ("repeat_delay", lambda: F.fam_delay(ctx.rng, sizes(ctx, 120, 1200), tag="c17d", expect=("nodisconnect", "repeat")))])
 def replay(ctx, path):
